@@ -419,6 +419,51 @@ func Run(c *core.Ctx) {
 	// else still runs and decides.
 	r.probe()
 
+	// 0b. long-stall schedules: real waiting, so they run in their own child
+	// processes concurrently with everything else
+	var longWG sync.WaitGroup
+	ladder := LongStallLadder(c.Quick())
+	longest := 0.0
+	var longMu sync.Mutex
+	for i, T := range ladder {
+		longWG.Add(1)
+		go func(i int, T float64) {
+			defer longWG.Done()
+			defer func() {
+				if e := recover(); e != nil {
+					if ie, ok := e.(core.InfraError); ok {
+						c.Inconclusive("infrastructure: " + ie.Msg)
+						return
+					}
+					panic(e)
+				}
+			}()
+			s := longStallScript(T)
+			hist, crashes := r.runChunk(fmt.Sprintf("longstall%d", i), []Script{s}, 0)
+			for _, cr := range crashes {
+				r.reportCrash(cr)
+			}
+			if h := hist[0]; h != nil {
+				r.judge(s, h)
+				if !h.Aborted && len(h.Watchdog) == 0 {
+					longMu.Lock()
+					if T > longest {
+						longest = T
+					}
+					longMu.Unlock()
+					r.add("long_stall_schedules_completed", 1)
+				}
+			}
+		}(i, T)
+	}
+	c.Set("long_stall_ladder_seconds", ladder)
+	c.Assume(fmt.Sprintf("bounded-progress restatement for stalled clients: an event broadcast while a connected client's writer is blocked for up to T seconds is delivered once it resumes, T = %g s (the longest stall of this tier's ladder %v, real time); an implementation-chosen delivery timeout longer than that cannot be seen", ladder[len(ladder)-1], ladder))
+	defer func() {
+		longMu.Lock()
+		c.Set("longest_stall_seconds_exercised", longest)
+		longMu.Unlock()
+	}()
+
 	// 1. the canonical minimal schedule, then all forced schedules
 	min := MinimalCrashScript()
 	r.minText = min.Text()
@@ -497,6 +542,7 @@ func Run(c *core.Ctx) {
 	close(jobs)
 	wg.Wait()
 	c.Set("random_histories", total)
+	longWG.Wait()
 	r.finish()
 }
 
